@@ -1,5 +1,5 @@
 // C36: connection-protocol handling is robust and replies are matched.
-// Every peer packet sequence up to a depth over a 37-packet alphabet, combined with
+// Every peer packet sequence up to a depth over a 38-packet alphabet, combined with
 // local calls, is run against the real mux/channel code (package ssh instrumented,
 // goroutines under the cooperative scheduler) and compared with a small reference
 // model of RFC 4254 channel/global request handling.
@@ -68,6 +68,10 @@ func model(seq []int) expect {
 			}
 			chans[id] = &mchan{peer: 200, inbound: true, win: 1000, replies: []string{"openConfirm:200"}}
 			e.newChans++
+		case ssh.VerifC36OpenRej:
+			// offered to the application, which rejects it: no channel remains
+			e.newChans++
+			e.asyncReq = append(e.asyncReq, "appReject")
 		case ssh.VerifC36OpenMaxPkt0:
 			e.sync = append(e.sync, "openFail:201")
 		case ssh.VerifC36OpenMaxPktHuge:
@@ -153,7 +157,7 @@ func model(seq []int) expect {
 	return e
 }
 
-var kindName = []string{"openOK", "openMaxPkt0", "openMaxPktHuge", "confirmO(dup)", "confirm77", "failureO(dup)", "confirmI", "dataO", "dataO-empty", "dataO-lenmismatch", "dataO-toobig", "data77", "stderrO", "ext7O", "dataO-truncated", "eofO", "closeO", "closeI", "eof77", "reqO-want", "reqO", "req77-want", "req77", "successO", "failureO-reply", "success77", "global-want", "globalSuccess", "globalFailure", "ping", "adjustO-0", "adjustO-2^31", "short-chan-pkt", "type199-O", "type199-short", "global", "open-truncated"}
+var kindName = []string{"openOK", "openMaxPkt0", "openMaxPktHuge", "confirmO(dup)", "confirm77", "failureO(dup)", "confirmI", "dataO", "dataO-empty", "dataO-lenmismatch", "dataO-toobig", "data77", "stderrO", "ext7O", "dataO-truncated", "eofO", "closeO", "closeI", "eof77", "reqO-want", "reqO", "req77-want", "req77", "successO", "failureO-reply", "success77", "global-want", "globalSuccess", "globalFailure", "ping", "adjustO-0", "adjustO-2^31", "short-chan-pkt", "type199-O", "type199-short", "global", "open-truncated", "open-rejected-by-app"}
 
 func seqName(seq []int, local int) string {
 	var p []string
@@ -191,6 +195,22 @@ func check(seq []int, local int) func(any) (string, string) {
 					}
 					return "", ""
 				}
+			}
+		}
+		// A channel the application is about to reject holds a local id for a moment; if an
+		// earlier packet of the sequence freed O's or I's id, that id may or may not be taken
+		// by it when later packets "for O/I" or a later open arrive. Not modelled: such
+		// executions are checked for panics and hangs only.
+		closed := false
+		for i, k := range seq {
+			if k == ssh.VerifC36CloseO || k == ssh.VerifC36CloseI {
+				closed = true
+			}
+			if k == ssh.VerifC36OpenRej && closed && i < len(seq)-1 {
+				if local != 0 && !r.LocalDone {
+					return "local call did not return", name
+				}
+				return "", ""
 			}
 		}
 		// the local call's own traffic shows up at the peer too: filter it out
